@@ -257,12 +257,12 @@ def run_cases(ck: Check, n: int):
         for c in cons:
             if out.position[c] != cand0.position[c]:
                 ck.fail(f"coordinate {c} fixed by the grid's symmetry changed: {cand0.position[c]} -> {out.position[c]}", {**sig, "check": "refine_constrained_untouched"}, case)
+        if type(grid).__name__ == "CartesianGrid" and any((not grid.periodic[a]) and not (b[0] <= cand0.position[a] <= b[1]) for a, b in enumerate(grid.axes_bounds)):
+            ck.count("candidate_outside_box_on_wall_axis")
         for ax, lo, L in periodic_axes(grid):
             ck.count("wrap_checked")
             if not (lo <= cand0.position[ax] < lo + L):
                 ck.count("candidate_outside_box_on_periodic_axis")
-        if type(grid).__name__ == "CartesianGrid" and any((not grid.periodic[a]) and not (b[0] <= cand0.position[a] <= b[1]) for a, b in enumerate(grid.axes_bounds)):
-            ck.count("candidate_outside_box_on_wall_axis")
             if not (lo <= out.position[ax] < lo + L + 1e-12):
                 ck.fail(f"position {out.position} not wrapped into the box along periodic axis {ax}", {**sig, "check": "refine_wrap_in_box"}, case)
         if "cost" in rec:
